@@ -133,6 +133,21 @@ def regress_scenarios(full):
     add([SP("g1", 0, "g_stream3"), SP("g2", 1, "g_single"), SP("g3", 1, "g_empty"), SP("g1", 0, "g_stream1"), SP("g5", 1, "g_nocontent")],
         gen_cycles=2)
     add([SP("g1", 0, "g_bad_parse"), SP("g2", 1, "g_ints"), SP("g3", 1, "g_listvalue")], cfg="known-12")
+    # C14: pulse markers of its own subscription; C19: per-call isolation
+    add([R("h1", 0, "h_pulse"), T(0), dict(a="sleep", ms=200), T(0, "t.y"), RS("kill"), dict(a="sleep", ms=200), T(0)])
+    add([D("c1", 0, "c_env"), CL("c1", 0), CL("c1", 0), BURST([CL("c1", 0), CL("c1", 0)]), RS("exit"), CL("c1", 0)])
+    # C16 known #9 (announce before subscribe): deterministic only with the gates of docs/proc-hooks.patch,
+    # an ordinary scenario otherwise
+    add([dict(a="gates", prefixes=["hsub."]), R("h1", 0, "h_echo"), dict(T(0, "t.x"), nowait=True), dict(a="step", actor="hsub.h1"),
+         dict(a="settle"), T(0, "t.y")], cfg="known-9-gated")
+    # C17 known (found by TLC on XsHandlers): .unregister unanswered when the server dies
+    add([R("h1", 0, "h_slow"), dict(T(0, "t.slow"), nowait=True), dict(U("h1", 0), nowait=True), RS("kill", quiet=False),
+         dict(a="settle"), T(0, "t.p"), T(1, "t.p")], cfg="known-unreg-lost")
+    # C17 known (found by TLC on XsGenerators): a .spawn.error for an older spawn hides the accepted one
+    add([BURST([SP("g1", 0, "g_nocontent"), SP("g1", 0, "g_stream1")], threads=1), RS("kill"), dict(a="sleep", ms=300)], cfg="known-gen-shadow")
+    # C18 duplex; known: a .send in another context feeds the instance
+    add([SP("g1", 1, "g_duplex"), SD("g1", 1, "s1\n"), SD("g1", 1, "s2\n"), RS("kill"), SD("g1", 1, "s3\n")])
+    add([SP("g1", 1, "g_duplex"), SD("g1", 1, "s1\n"), SD("g1", 0, "s2\n"), SD("g1", 1, "s3\n")], cfg="known-duplex-ctx")
     out = []
     for i, x in enumerate(S):
         acts, kw = x
@@ -140,7 +155,7 @@ def regress_scenarios(full):
     return out
 
 
-H_KINDS_T = ["h_echo", "h_echo", "h_echo_head", "h_slow", "h_a1", "h_a2", "h_a3ctx", "h_str", "h_int", "h_list", "h_bool", "h_none",
+H_KINDS_T = ["h_echo", "h_echo", "h_echo_head", "h_slow", "h_pulse", "h_a1", "h_a2", "h_a3ctx", "h_str", "h_int", "h_list", "h_bool", "h_none",
              "h_silent", "h_suffix", "h_suffix_a", "h_fail_before", "h_fail_mid", "h_fail_after", "h_cat", "h_cat_head"]
 H_KINDS_BAD = ["h_bad_parse", "h_bad_arity0", "h_bad_arity2", "h_bad_norun", "h_bad_resume", "h_bad_ttl"]
 TOPICS = ["t.x", "t.x", "t.y", "t.z", "t.fail", "t.slow"]
@@ -204,7 +219,7 @@ def random_handler_scenario(rng, s, long_ms):
     return mk(s, acts, mode=mode, cfg="random-h", extra_kinds=extra, long_ms=long_ms, seed=rng.randrange(1 << 30))
 
 
-C_KINDS = ["c_two", "c_two", "c_zero", "c_one", "c_three", "c_app", "c_err", "c_suffix", "c_slow", "c_cat", "c_bad_parse", "c_bad_norun"]
+C_KINDS = ["c_two", "c_two", "c_env", "c_zero", "c_one", "c_three", "c_app", "c_err", "c_suffix", "c_slow", "c_cat", "c_bad_parse", "c_bad_norun"]
 
 
 def random_command_scenario(rng, s, long_ms):
@@ -289,7 +304,7 @@ def run_scenarios(scs, d, jobs, chunk, tag="trace"):
         for x in scs:
             f.write(json.dumps(x) + "\n")
     t1 = time.time()
-    p = sh([XSV, "proc-run", "--in", inp, "--out", os.path.join(d, tag), "--jobs", str(jobs), "--chunk", str(chunk)],
+    p = sh([os.environ.get("XSV_BIN", XSV), "proc-run", "--in", inp, "--out", os.path.join(d, tag), "--jobs", str(jobs), "--chunk", str(chunk)],
            timeout=3000, env={"XSV_SCRATCH": d})
     stats = json.loads(p.stdout.strip().splitlines()[-1])
     t2 = time.time()
